@@ -698,7 +698,7 @@ SPEC = {
     "C03": ("Charging/PropsC03.v", {5, 8}, [("multi", 14)] * 8 + [("split", 10)] * 4 + [("huge", 2)] + [("lenwalk", 1)]),
     "C10": ("Charging/PropsC10.v", {1, 6, 9}, [("wrap32", 16)] + [("multi", 18)] * 10 + [("names", 14)] * 4 + [("burst", 4)] * 4 + [("wrap63", 8)]),
     "C12": ("Charging/PropsC12.v", {1, 3, 4, 5, 6, 7}, [("multi", 18)] * 14 + [("single", 12)] * 4),
-    "C11": ("Charging/PropsC11.v", {1}, [("multi", 14)] * 8 + [("single", 10)] * 4 + [("split", 6)] * 2),
+    "C11": ("Charging/PropsC11.v", {1}, [("multi", 14)] * 8 + [("single", 10)] * 4 + [("split", 10)] * 2),
 }
 KNOWN = {"C01/usage-in-create-not-rated",
          "C06/shared-reservation-across-sessions", "C03/record-exceeds-65535"}
@@ -783,7 +783,9 @@ def run(ctx, replay=None):
     props, codes, plan = SPEC[pid]
     cov = proof_stage(ctx, props, ["Charging/CorrChf.v", "Charging/FileCheck.v"])
     if ctx.tier != "quick":
-        plan = plan * 12
+        # the strata with thousands of containers per request cost minutes each now that every Diameter exchange has its
+        # own TLS connection: C03 repeats its plan 3 times, the others 12 times
+        plan = plan * (3 if pid == "C03" else 12)
     import time as _t
     t0 = _t.time()
     hs = run_histories(ctx, plan, ctx.seed * 1000003 + int(pid[1:]))
